@@ -249,6 +249,8 @@ def from_attributes(exponents, coefficients, names, shape) -> numpy.ndarray:
 
 def from_ndpoly(p) -> numpy.ndarray:
     """Read a numpoly.ndpoly through its public attributes into a model array."""
+    if not p.size:  # empty array: no elements, nothing to denote
+        return numpy.empty(tuple(p.shape), dtype=object)
     exps = numpy.asarray(p.exponents).tolist()
     coeffs = p.coefficients
     if len(coeffs) != len(exps):
